@@ -375,11 +375,15 @@ class Check:
             self.failure(f)
 
     # -- engine K
-    def run_kani(self, specs, jobs=16, timeout=1500):
+    def run_kani(self, specs, jobs=16, timeout=None):
         """specs: list of dict(harness=..., key=..., confirm=callable(values, native) -> (confirmed, what, replay) or None,
         symbolic=description of the harness's free variables)"""
         from engine import kani as K
         names = [sp['harness'] for sp in specs]
+        if timeout is None:
+            # the harnesses take 10-60 s each on the unchanged tree (C05's 24 together 90 s): a run that needs more than
+            # 10 minutes in the quick tier is reported as a timeout (inconclusive), not waited for
+            timeout = 600 if self.tier == 'quick' else 3000
         t_k = time.time()
         results, wall, built, err = K.run(self.ov, names, features=self.features or 'svg', jobs=jobs, timeout=timeout)
         self._phase('kani x %d' % len(names), t_k)
